@@ -32,6 +32,10 @@ def corpus():
     out = []
     out.append(Case('ring 2 2 2 2 3 ; p0 ; p0 ; p0 ; p0 ; p1 ; p1 ; p1 ; p1 ; p0 ; p1 ; p0! ; p1 ; p1 ; c ; c ; c ; c ; p0 ; c ; c ; c ; c ; c ; p1 ; p1 ; p1 ; p9 ; c', H, ('corpus', 'undo-path'), 'corpus'))
     out.append(Case('ring 1 2 2 1 4 ; p0 ; p0 ; p0 ; p0 ; p0 ; p0 ; p1 ; p1 ; p1 ; p1 ; c ; c ; c ; c ; c ; c ; c ; p1 ; p1', H, ('corpus', 'full-then-consume'), 'corpus'))
+    for em in 'qknd':
+        # consumer requests nothing (0 rounds): everything accepted is still queued at the end and goes out through `em`
+        out.append(Case(f'ring 3 2 2m 1 0{em} ; ' + ' ; '.join(['p0'] * 12 + ['p1'] * 12), H, ('corpus', 'end-' + em), 'corpus'))
+        out.append(Case(f'ring 2 1 1 1 1{em} ; ' + ' ; '.join(['p0'] * 8 + ['c'] * 10), H, ('corpus', 'end-' + em + '-empty'), 'corpus'))
     out.append(Case('spin LT TL L ; t0 ; t1 ; t0 ; t0 ; t1 ; t1 ; t1 ; t2 ; t2 ; t2 ; t2 ; t0 ; t0 ; t1', H, ('corpus', 'spin'), 'corpus'))
     return out
 
@@ -95,8 +99,13 @@ def generate(rng, tier):
         spur = {j for j in range(n) if rng.random() < 0.08}
         if rng.random() < 0.03:
             sched[rng.randrange(n)] = 9   # an invalid thread id: both sides must answer "x"
-        line = ring_line(ms, nprod, adds, creq, rounds, sched, spur).replace('p9!', 'p9')
-        out.append(Case(line, H, ('ring', 'random')))
+        # further entry points that funnel into the same core, same accesses under the scheduler: the rvalue Add overload;
+        # at quiescence Peek / empty / max_size / the two counters, and the rest taken out by Clear(), Consume(n) without a
+        # callback or the buffer's destructor instead of Consume(n, callback)
+        mv = 'm' if rng.random() < 0.3 else ''
+        em = rng.choice(['', '', 'q', 'k', 'n', 'd'])
+        line = ring_line(ms, nprod, f'{adds}{mv}', creq, f'{rounds}{em}', sched, spur).replace('p9!', 'p9')
+        out.append(Case(line, H, ('ring', 'random') + (('add-rvalue',) if mv else ()) + (('end-' + em,) if em else ())))
     # ---- spin lock
     scripts_pool = ['L', 'T', 'LL', 'LT', 'TL', 'TT', 'LTL', 'LLL', 'TLT']
     for sc in itertools.product(['L', 'T', 'LT', 'TL'], repeat=2):
@@ -116,6 +125,13 @@ def generate(rng, tier):
                     cur = rng.randrange(nt)
                 sched.append(cur)
         out.append(Case('spin ' + ' '.join(sc) + ' ; ' + ' ; '.join(f't{t}' for t in sched), H, ('spin', 'random')))
+    # the holder releases while the waiter is at every position around the end of its fast loop (100 iterations), its
+    # yield and its sleep: lock() has four places where it can acquire (first exchange, try_lock in the fast loop, try_lock after
+    # the yield, first exchange of the next round) and each must be an exchange that read "free"
+    for n in range(94, 114):
+        for sc in ('L L', 'L LT', 'LL L'):
+            out.append(Case(f'spin {sc} ; t0 ; t0 ; t0 ; ' + ' ; '.join(['t1'] * n) + ' ; t0 ; t0 ; t0 ; ' + ' ; '.join(['t1'] * 6 + ['t0'] * 4 + ['t1'] * 4),
+                            H, ('spin', 'handover-around-yield')))
     # a waiter that goes all the way through the fast loop, yield and sleep while the lock is held
     out.append(Case('spin L L ; t0 ; t0 ; t0 ; t1 ; t1 ; ' + ' ; '.join(['t1'] * 230) + ' ; t0 ; t0 ; t1 ; t1 ; t1 ; t1', H, ('spin', 'long-wait')))
     return out
@@ -148,6 +164,7 @@ def segments(case, out):
 def oracle_ring(case, out):
     cfg, steps, summary = segments(case, out)
     ms, nprod = int(cfg[0]), int(cfg[1])
+    int(cfg[2].rstrip('m')); int(cfg[4].rstrip('qknd'))     # optional suffixes: rvalue Add overload / end-of-case accessors
     begun = 0
     consumed = 0
     inflight = {}      # thread -> elem
@@ -192,13 +209,38 @@ def oracle_ring(case, out):
                     return ('consumer-never-takes-an-empty-slot', n)
                 consumed += 1
                 cons_seq.append(int(m.group(2)[1:]))
-    m = re.fullmatch(r'done=(\d) res=\[(.*)\] out=\[(.*)\] rest=\[(.*)\] live=(-?\d+)', summary)
+    m = re.fullmatch(r'done=(\d) res=\[(.*)\] out=\[(.*)\] rest=\[([^\]]*)\](?: q=(\S+))? live=(-?\d+)', summary)
     if not m:
         return ('summary', summary)
     if m.group(1) != '1':
         return ('every-operation-terminates', summary)
     ids = lambda s: [(-1 if x == 'null' else int(x[1:])) for x in s.split(',')] if s else []
     outl, rest = ids(m.group(3)), ids(m.group(4))
+    end_mode = cfg[4][-1] if cfg[4][-1] in 'qknd' else ''
+    if end_mode:
+        # the sequential accessors, read at quiescence: what Peek shows is exactly what is then taken out (by Consume with a
+        # callback, Clear(), Consume(n) or the buffer's destructor), the counters count accepted / consumed elements
+        if not m.group(5):
+            return ('accessors-answer', summary)
+        mq = re.fullmatch(r'max:(\d+),empty:([01]),prod:(\d+),cons:(\d+),peek:\[([^\]]*)\],n:(\d+),pe:([01]),all:([01]),stop:(\d+)/([01]),aup:([01])', m.group(5))
+        if not mq:
+            return ('accessors-answer', summary)
+        peek = ids(mq.group(5))
+        nacc = sum(1 for r in ret.values() if r)
+        if int(mq.group(1)) != ms:
+            return ('max_size-is-the-configured-capacity', summary)
+        if (peek if end_mode != 'd' else sorted(peek)) != rest:
+            return ('peek-shows-exactly-what-is-consumed-next', summary)
+        if int(mq.group(3)) != nacc or int(mq.group(4)) != len(outl) or int(mq.group(3)) - int(mq.group(4)) != len(peek):
+            return ('counters-count-accepted-and-consumed', summary)
+        if (mq.group(2) == '1') != (not peek) or (mq.group(7) == '1') != (not peek) or int(mq.group(6)) != len(peek) or mq.group(8) != '1':
+            return ('empty-and-range-size-agree-with-content', summary)
+        if int(mq.group(9)) != min(2, len(peek)) or (mq.group(10) == '1') != (len(peek) < 2):
+            return ('ForEach-stops-when-its-callback-says-so', summary)
+        if mq.group(11) != '1':
+            return ('a-slot-owns-its-element-and-refuses-a-second-one', summary)
+    elif m.group(5):
+        return ('summary', summary)
     allc = outl + rest
     if outl != cons_seq:
         return ('summary-consistent-with-trace', summary)
@@ -213,7 +255,7 @@ def oracle_ring(case, out):
         seq = [e for e in allc if owner.get(e) == p]
         if seq != sorted(seq):
             return ('per-producer-order', f'producer {p}: {seq}')
-    if m.group(5) != '0':
+    if m.group(6) != '0':
         return ('no-leak-no-double-free', summary)
     return None
 
